@@ -277,7 +277,7 @@ class YieldInjector:
 		self.m = sys.monitoring
 		self.n = 0
 		self.yields = 0
-		self.salt = (hash(seed) & 0xFFFF) | 1
+		self.salt = (__import__('vf.core', fromlist=['h64']).h64(str(seed)) & 0xFFFF) | 1
 		self.codes = [gc.accumulate_kmers.__code__, gc.calc_signature.__code__, gk.find_kmers.__code__, gk.KmerMatch.kmer_index.__code__,
 		              gc.ArrayAccumulator.add.__code__, gc.SetAccumulator.add.__code__, gc.ArrayAccumulator.signature.__code__, gc.SetAccumulator.signature.__code__,
 		              gc.calc_file_signature.__code__]
